@@ -491,6 +491,29 @@ def run(rep: Report, prog: Program, tier: str) -> None:
     else:
         rep.ok("C19-TRACK", "RTCRtpReceiver.stop: end-of-track signalled whether or not the receiver had been started", sample=f"{len(act.returns)} exit(s)")
 
+    # ---------------- C19-SCTPSTOP: stop() of the SCTP transport always runs the CLOSED transition - that is what closes channels which were created after the
+    # association had already ended (they live only in the pending-message queue)
+    rep.rule("C19-SCTPSTOP", "RTCSctpTransport.stop() reaches _set_state(CLOSED) on every normal exit", min_instances=1)
+    sstop = prog.func("rtcsctptransport.RTCSctpTransport.stop")
+
+    def _ev_ss(node, f):
+        if isinstance(node, ast.Call) and unparse(node.func) == "self._set_state" and node.args and unparse(node.args[0]).endswith("State.CLOSED"):
+            return ["closed-transition"]
+        return []
+    act_ss = EventsDomain(prog, _ev_ss).run(sstop)
+    bad_ss = [getattr(n_, "lineno", None) or "end of function" for st_, n_ in act_ss.returns if "closed-transition" not in st_.events]
+    if not act_ss.returns:
+        raise AnalysisError("RTCSctpTransport.stop has no normal exit?")
+    if bad_ss:
+        rep.fail(mk_finding(prog, PROP, "C19-SCTPSTOP", sstop, sstop.node, f"stop() can return (line {bad_ss}) without _set_state(CLOSED): a data channel created after the peer ended the association "
+                            "(it has no id and lives only in the pending-message queue) stays `connecting` after close()", construct="SCTP stop() skips the CLOSED transition"))
+    else:
+        rep.ok("C19-SCTPSTOP", "stop(): _set_state(CLOSED) on every normal exit", sample=f"{len(act_ss.returns)} exit(s)")
+    # __connect() may resume after close(): it starts media / SCTP only over a DTLS transport that is connected (rule C03-STARTED)
+    from .common import import_rules as _imp
+    _imp(rep, prog, tier, PROP, "C19-CONNECT", "C03", ["C03-STARTED"],
+         "__connect() starts senders, receivers and SCTP only under `dtlsTransport.state == 'connected'`: resumed after a close() it starts nothing on the closed connection (rule C03-STARTED)", 4)
+
     # ---------------- C19-SIGNALING (= C14-ABSORB): a negotiation call resumed after close() cannot move signalingState away from closed
     from .common import import_rules
     import_rules(rep, prog, tier, PROP, "C19-SIGNALING", "C14", ["C14-ABSORB", "C14-CLOSED"],
